@@ -315,6 +315,19 @@ def _range_lookup(chk: Check, f, key: str, by_addr: bool) -> None:
         chk.ob("R13.3", key + ":step-filter", ok, f.loc(lp),
                "every yielded offset must pass '%s in <requested range>' (a range with a step "
                "excludes addresses between its members)" % ("self.address + i" if by_addr else "i"), 3)
+    early = [r_ for r_ in walk_no_nested(f.node) if isinstance(r_, ast.Return)]
+    n_allowed = 1 if by_addr else 0
+    extra = []
+    for r_ in early:
+        par_ = getattr(r_, "_parent", None)
+        is_guard = isinstance(par_, ast.If) and isinstance(par_.test, ast.Compare) and \
+            attr_path(par_.test.left) == (me, "address") and isinstance(par_.test.ops[0], ast.Is)
+        if not is_guard:
+            extra.append(r_)
+    chk.ob("R13.3", key + ":no-other-early-exit", not extra, f.loc(extra[0]) if extra else f.loc(),
+           "%s returns early on a condition other than 'the interval has no address' (%s): stored "
+           "expressions that qualify are skipped" % (
+               key, unparse(getattr(extra[0], "_parent", extra[0]))[:60] if extra else ""), 2)
     if by_addr:
         guard = cfg.nodes_where(lambda n: isinstance(n, ast.Compare) and len(n.ops) == 1 and
                                 isinstance(n.ops[0], (ast.Is, ast.IsNot)) and
